@@ -402,8 +402,15 @@ func (x *Exec) nopreFor(skip int) bool {
 
 // ---- public primitives ----
 
-// Go spawns a controlled thread (a plain goroutine when inactive).
-func Go(fn func()) {
+// Go is the instrumented `go` statement of goatcore: it spawns a controlled thread that is
+// allowed to stay blocked at quiescence (a plain goroutine when inactive).
+func Go(fn func()) { spawn(fn, true) }
+
+// Spawn starts a harness thread: it must have finished at quiescence, otherwise the
+// execution counts as a deadlock.
+func Spawn(fn func()) { spawn(fn, false) }
+
+func spawn(fn func(), daemon bool) {
 	x := cx
 	if x == nil {
 		go fn()
@@ -414,7 +421,7 @@ func Go(fn func()) {
 	}
 	parent := x.cur
 	t := x.newThread()
-	t.daemon = false
+	t.daemon = daemon
 	t.pend = &pendingOp{name: "start", obj: 0}
 	if x.race != nil {
 		t.vc.join(parent.vc)
@@ -425,21 +432,7 @@ func Go(fn func()) {
 		t.pend = nil
 		fn()
 	})
-	x.point(&pendingOp{name: "go", obj: t.id, nopre: x.nopreFor(2)})
-}
-
-// GoDaemon spawns a controlled thread that is allowed to stay blocked at quiescence.
-func GoDaemon(fn func()) {
-	x := cx
-	if x == nil {
-		go fn()
-		return
-	}
-	n := len(x.threads)
-	Go(fn)
-	if len(x.threads) > n {
-		x.threads[n].daemon = true
-	}
+	x.point(&pendingOp{name: "go", obj: t.id, nopre: x.nopreFor(3)})
 }
 
 // MarkDaemon marks the calling thread as allowed to stay blocked at quiescence.
